@@ -446,4 +446,105 @@ Section Spread.
     - rewrite firstn_all_idx, app_nil_r. exact Ha.
   Qed.
 
+  (* --- completeness: the loop always reaches level 0, where every host is its own domain, and takes as
+         many hosts as it still needs if they exist --- *)
+  Hypothesis Hdom0 : forall h, known h -> dom topo 0 h = h.
+  Hypothesis Hcnd : NoDup cands.
+
+  Lemma level0_entry_singleton k hs x : (0 < n)%nat -> In (k, hs) (nth 0 idx []) -> In x hs -> x = k.
+  Proof.
+    intros Hn0 Hin Hx. pose proof (Hkey 0 k hs x Hn0 Hin Hx) as Hk.
+    rewrite Hdom0 in Hk; auto. left. destruct (Hlev 0 Hn0) as [_ Hiff]. apply Hiff.
+    unfold level_hosts. apply in_concat. exists hs. split; auto. apply in_map_iff. exists (k, hs). auto.
+  Qed.
+
+  Lemma alloc_complete_loop : forall L num acc o perms acc' rem,
+    (L <= n)%nat -> (0 < L)%nat -> good acc -> NoDup acc -> (forall L', (L' < L)%nat -> DE L' acc) ->
+    alloc_levels (rev (firstn L idx)) num exch (ex0 ++ acc) down o perms acc = (acc', rem) ->
+    (0 < rem)%nat ->
+    (length (eligible_hosts cands ex0 down) < length acc + num)%nat.
+  Proof.
+    induction L as [|L IH]; intros num acc o perms acc' rem HL HL0 Hg Hnd HDE Halloc Hrem; [lia|].
+    rewrite levels_from in Halloc by lia.
+    destruct num as [|num']; [simpl in Halloc; inversion Halloc; subst; lia|].
+    cbn [alloc_levels] in Halloc.
+    set (lvl := shuffle (hd [] perms) (nth L idx [])) in *.
+    rewrite shuffle_map in Halloc. fold lvl in Halloc.
+    rewrite rev_length, firstn_length, Nat.min_l in Halloc by lia.
+    set (avoid := domain_members exch L (nth L idx []) ++ ex0 ++ acc) in *.
+    destruct (pick_n (S num') avoid down (map snd lvl) o) as [chosen o'] eqn:Hp.
+    pose proof (step_props L (S num') acc o perms) as Hstep. simpl in Hstep.
+    fold lvl in Hstep. fold avoid in Hstep. rewrite Hp in Hstep. simpl in Hstep.
+    destruct Hstep as (Hg' & Hnd' & HDE' & Hle & _); [lia|auto|auto|apply HDE; lia|].
+    rewrite <- app_assoc in Halloc.
+    destruct L as [|L'].
+    - (* this was level 0: the recursion has no level left *)
+      change (rev (firstn 0 idx)) with (@nil level) in Halloc. cbn [alloc_levels] in Halloc.
+      injection Halloc as <- <-.
+      (* count the pool *)
+      destruct (pick_n_sel (S num') avoid down (map snd lvl) o) as (_ & _ & Hlen_eq).
+      rewrite Hp in Hlen_eq. cbn [fst] in Hlen_eq.
+      assert (Hrem' : (0 < S num' - length chosen)%nat) by exact Hrem. clear Hrem.
+      assert (Hpool : (length (pool_of avoid down (map snd lvl)) < S num')%nat) by lia.
+      rewrite <- pool_keyed_snd, map_length in Hpool.
+      set (kp := pool_keyed avoid down lvl) in *.
+      set (E' := filter (fun x => negb (mem x acc)) (eligible_hosts cands ex0 down)).
+      assert (Hn0 : (0 < n)%nat) by lia.
+      assert (Hin_lvl : forall e, In e lvl <-> In e (nth 0 idx [])).
+      { intros e; split; apply Permutation_in; [|apply Permutation_sym]; apply shuffle_perm. }
+      assert (Hknd' : NoDup (map fst lvl)).
+      { eapply Permutation_NoDup; [apply Permutation_map, Permutation_sym, shuffle_perm|apply Hknd; auto]. }
+      assert (HE'nd : NoDup E').
+      { unfold E', eligible_hosts. apply NoDup_filter, NoDup_filter. exact Hcnd. }
+      assert (HE'keys : incl E' (map fst kp)).
+      { intros h Hh. unfold E' in Hh. apply filter_In in Hh as [Hel Hnacc].
+        apply negb_true_iff, mem_false in Hnacc.
+        unfold eligible_hosts in Hel. apply filter_In in Hel as [Hhc Hhb].
+        apply andb_true_iff in Hhb as [Hnex Hndown].
+        apply negb_true_iff, mem_false in Hnex. apply negb_true_iff, mem_false in Hndown.
+        destruct (level_entry_of 0 h Hn0 Hhc) as (hs & Hhs & Hhin).
+        rewrite Hdom0 in Hhs by (left; auto).
+        assert (Hnoavoid : forall a, In a avoid -> ~ In a hs).
+        { intros a Ha Hain. pose proof (level0_entry_singleton h hs a Hn0 Hhs Hain) as ->.
+          unfold avoid in Ha. apply in_app_or in Ha as [Ha|Ha].
+          - destruct (members_in 0 h Hn0 Ha) as (e0 & hs0 & He0 & Hhs0 & Hin0).
+            pose proof (level0_entry_singleton _ hs0 h Hn0 Hhs0 Hin0) as Hk.
+            rewrite Hdom0 in Hk by (right; auto). subst e0. auto.
+          - apply in_app_or in Ha as [Ha|Ha]; auto. }
+        assert (Hne : filter (fun x => negb (mem x down)) hs <> []).
+        { intros Hnil. assert (In h (filter (fun x => negb (mem x down)) hs)).
+          { apply filter_In. split; auto. apply negb_true_iff, mem_false; auto. }
+          rewrite Hnil in H. destruct H. }
+        apply in_map_iff. exists (h, filter (fun x => negb (mem x down)) hs). split; auto.
+        apply pool_keyed_complete; auto. apply Hin_lvl; auto. }
+      pose proof (NoDup_incl_length HE'nd HE'keys) as Hcount. rewrite map_length in Hcount.
+      assert (Hsplit : (length (eligible_hosts cands ex0 down) <= length acc + length E')%nat).
+      { rewrite <- app_length. apply NoDup_incl_length.
+        - unfold eligible_hosts. apply NoDup_filter. exact Hcnd.
+        - intros x Hx. apply in_or_app. destruct (mem x acc) eqn:Hm.
+          + left. apply mem_In; auto.
+          + right. unfold E'. apply filter_In. split; auto. rewrite Hm. reflexivity. }
+      lia.
+    - assert (Hrec := IH (S num' - length chosen)%nat (acc ++ chosen) o' (tl perms) acc' rem).
+      rewrite app_length in Hrec.
+      assert ((length (eligible_hosts cands ex0 down) < length acc + length chosen + (S num' - length chosen))%nat); [|lia].
+      apply Hrec; auto; try lia.
+      intros L2 HL2. apply (DE_below (S L')); [lia|auto|auto|lia].
+  Qed.
+
+  Lemma alloc_complete_section num o perms :
+    (0 < n)%nat -> (0 < num)%nat ->
+    allocate idx num exch ex0 down o perms = None ->
+    (length (eligible_hosts cands ex0 down) < num)%nat.
+  Proof.
+    unfold allocate. intros Hn0 Hnum H.
+    destruct (alloc_levels (rev idx) num exch ex0 down o perms []) as [acc rem] eqn:Ha.
+    destruct rem as [|rem]; [discriminate|].
+    apply (alloc_complete_loop n num [] o perms acc (S rem)); auto; try lia.
+    - intros r [].
+    - constructor.
+    - intros L' _. split; [constructor|intros r []].
+    - rewrite firstn_all_idx, app_nil_r. exact Ha.
+  Qed.
+
 End Spread.
